@@ -306,6 +306,26 @@ def pop_event_of(p: Path, value, names=('popfirst',)) -> Optional[Event]:
 COPY_CALL_NAMES = {'deepcopy', 'copy', 'array', 'asarray', 'asfarray', 'ascontiguousarray'}
 
 
+def refuse_peeled_loop(rid: str, drv: FuncInfo):
+    """The iteration driver with its first trip peeled off the loop (its = range(number); if first and its: its =
+    its[1:]; <first iteration>; for _ in its: ...) performs `number` iterations like the plain loop, but the argument
+    needs arithmetic on lengths of sliced ranges that the trip rules do not do: undecided for this form, never a
+    violation."""
+    names = {}
+    for n in ast.walk(drv.node):
+        if isinstance(n, ast.Assign) and len(n.targets) == 1 and isinstance(n.targets[0], ast.Name):
+            names.setdefault(n.targets[0].id, []).append(n.value)
+    for lp in ast.walk(drv.node):
+        if isinstance(lp, ast.For) and isinstance(lp.iter, ast.Name) and lp.iter.id in names:
+            vs = names[lp.iter.id]
+            from_range = any(isinstance(v, ast.Call) and isinstance(v.func, ast.Name) and v.func.id == 'range' for v in vs)
+            sliced = any(isinstance(v, ast.Subscript) and isinstance(v.value, ast.Name) and v.value.id == lp.iter.id
+                         and isinstance(v.slice, ast.Slice) for v in vs)
+            if from_range and sliced:
+                raise AnalysisError(f'{rid}: {drv.short} iterates over a sliced range ({lp.iter.id}): the first trip '
+                                    f'is peeled off the loop; the trip count is not decided for this form')
+
+
 def is_diagnostic_call(ctx, f: FuncInfo, call: ast.Call) -> bool:
     """A logging call (method of a logging.Logger / function of the logging module) or print: writes outside the
     program state, keeps none of its arguments."""
